@@ -8,7 +8,7 @@ CHAINS = {"quick": "40,-40,1500,-1500,3000", "thorough": "40,-40,2000,-2000,5000
 class Mgr(S.Suite):
     name = "mgr"
     worker = "w_mgr.py"
-    FAMILY = {"C01": "c01", "C02": "c02", "C03": "c03", "C17": "c17", "C18": "c18"}
+    FAMILY = {"C01": "c01", "C02": "c02", "C03": "c03", "C17": "c17", "C18": "c18", "C13": "c13"}
     # exactly the observables of each property's `observe_at` (DESIGN.md, Appendix A)
     FIELDS = {
         "C01": {"bad-op", "exc", "store", "defs"},
@@ -16,10 +16,11 @@ class Mgr(S.Suite):
         "C03": {"bad-op", "exc", "sup", "defs", "find_deps", "tasks", "expr"},
         "C17": {"bad-op", "exc", "frozen", "defs", "sup", "store"},
         "C18": {"bad-op", "exc", "trace", "store", "defs", "sup"},
+        "C13": {"bad-op", "exc", "schedule", "trace", "store"},
     }
     SIZES = {
-        "quick": {"C01": (640, 22), "C02": (640, 22), "C03": (1600, 16), "C17": (640, 22), "C18": (640, 22)},
-        "thorough": {"C01": (20000, 26), "C02": (20000, 26), "C03": (60000, 16), "C17": (20000, 24), "C18": (20000, 24)},
+        "quick": {"C01": (640, 22), "C02": (640, 22), "C03": (1600, 16), "C17": (640, 22), "C18": (640, 22), "C13": (640, 14)},
+        "thorough": {"C01": (20000, 26), "C02": (20000, 26), "C03": (60000, 16), "C17": (20000, 24), "C18": (20000, 24), "C13": (20000, 16)},
     }
 
     def family(self, prop):
@@ -35,6 +36,8 @@ class Mgr(S.Suite):
     def extra_argv(self, prop, tier, job, build_index):
         if job == 0 and build_index == 0 and prop in ("C01", "C02"):
             return ["--corpus", "--chains", CHAINS[tier]]
+        if job == 0 and build_index == 0 and prop == "C13":
+            return ["--corpus"]
         return []
 
     def compare_line(self, line, model):
